@@ -1,8 +1,10 @@
 import XmppModel.Model.Skeleton
 import XmppModel.Model.ServeLoop
 import XmppModel.Model.ScramLoop
+import XmppModel.Model.WaitFor
 import XmppModel.Lemmas.Skeleton
 import XmppModel.Lemmas.ServeLoop
+import XmppModel.Lemmas.WaitFor
 import XmppModel.Generated.C09
 /-!
 # C09 — no peer input can panic or wedge the library
@@ -241,6 +243,78 @@ theorem C09_cancels_reviewed :
       ("xmpp.(*Session).sendResp", true), ("ibb.(*stanzaWriter).Write", true), ("ibb.(*Conn).Close", true),
       ("ibb.(*Listener).Expect", false), ("muc.(*Channel).LeavePresence", true),
       ("muc.(*Channel).JoinPresence", true)] := by decide +kernel
+
+/-! ## A pending request, the serve goroutine and the handlers' locks
+
+A local call that waits for the peer's answer (an acknowledged ibb `Write` / `Flush`, every
+`UnmarshalIQ`-based helper) can only be released by the serve goroutine, which reads the answer
+and hands it over.  If a handler - running on the serve goroutine - needs a mutex the waiting
+call holds, a peer that sends the handler's stanza *before* the answer wedges the session for
+ever: the handler waits for the lock, the call for the answer, the answer for Serve
+(`Model/WaitFor.lean`).  The two sets are regenerated per handler package
+(`harness/c09/waitfacts.go`): mutexes held across a wait for the peer (directly, through
+functions of the package, or through writer chains built over the package's stanza writer) and
+mutexes taken by code reachable from the package's handlers. -/
+
+section WaitFor
+open XmppModel.WaitFor
+
+/-- Disjoint lock sets: whatever the peer sends and whether or not a call is waiting, the serve
+goroutine reads the whole input and is back at its loop head (so Serve returns once the input
+ends) after at most `measure` transitions - for every pair of sets, every input. -/
+theorem C09_disjoint_locks_serve_finishes {α : Type} [DecidableEq α] (held acq : List α)
+    (hd : disjoint held acq = true) (aw : Bool) (inbox : List Msg) :
+    finished (run held acq (measure acq ⟨aw, none, inbox⟩) ⟨aw, none, inbox⟩) = true :=
+  run_finishes hd _ _ (todoOk_init held aw inbox) (Nat.le_refl _)
+
+/-- A shared lock: with a call waiting, the first stanza for a handler stops the serve goroutine
+for ever; nothing behind it (the answer included) is ever read.  This is the negation witness
+of the full-strength statement for code whose sets intersect. -/
+theorem C09_shared_lock_wedges {α : Type} [DecidableEq α] (held acq : List α) (x : α)
+    (hx : x ∈ held) (ha : x ∈ acq) (rest : List Msg) :
+    wedged held acq (run held acq (acq.length + 1) ⟨true, none, .stanza :: rest⟩) = true ∧
+      (run held acq (acq.length + 1) ⟨true, none, .stanza :: rest⟩).inbox = rest := by
+  have hr : run held acq (acq.length + 1) (⟨true, none, .stanza :: rest⟩ : St α)
+      = run held acq acq.length ⟨true, some acq, rest⟩ := by simp [run, step]
+  rw [hr]
+  exact run_wedges (by simpa using hx) acq rest acq.length ha (Nat.le_refl _)
+
+-- non-vacuity: a handler that takes two other locks lets the answer through …
+example : finished (run [1] [2, 3] 20 ⟨true, none, [.stanza, .reply, .stanza]⟩) = true := by decide
+example : (run [1] [2, 3] 20 ⟨true, none, [.stanza, .reply, .stanza]⟩).awaiting = false := by decide
+-- … one that needs the waiting call's lock never gets to the answer
+example : wedged [1] [2, 1] (run [1] [2, 1] 20 ⟨true, none, [.stanza, .reply]⟩) = true := by decide
+example : (run [1] [2, 1] 20 ⟨true, none, [.stanza, .reply]⟩).inbox = [.reply] := by decide
+-- without a waiting call the same handler is harmless
+example : finished (run [1] [2, 1] 20 ⟨false, none, [.stanza, .reply]⟩) = true := by decide
+
+def waitLocksOk : Option (List (String × List String × List String)) → Bool
+  | some l => l.any (fun p => !p.2.1.isEmpty) && l.any (fun p => !p.2.2.isEmpty) &&
+      l.all fun p => disjoint p.2.1 p.2.2
+  | none => false
+
+/-- In every handler package the mutexes held across a wait for the peer and the mutexes taken
+on the serve goroutine are disjoint (and the extraction found both kinds somewhere: ibb's
+write lock, the handlers' table locks).  Re-decided on every run. -/
+theorem C09_handler_locks_disjoint : waitLocksOk XmppModel.Generated.C09.waitLocks = true := by
+  decide +kernel
+
+/-- Hence, for the regenerated sets of every handler package: every input, with or without a
+pending request, is read to its end by the serve goroutine. -/
+theorem C09_pending_request_never_wedges_serve :
+    ∃ l, XmppModel.Generated.C09.waitLocks = some l ∧ ∀ p ∈ l, ∀ (aw : Bool) (inbox : List Msg),
+      finished (run p.2.1 p.2.2 (measure p.2.2 ⟨aw, none, inbox⟩) ⟨aw, none, inbox⟩) = true := by
+  have h := C09_handler_locks_disjoint
+  cases hw : XmppModel.Generated.C09.waitLocks with
+  | none => rw [hw] at h; simp [waitLocksOk] at h
+  | some l =>
+    rw [hw] at h
+    refine ⟨l, rfl, ?_⟩
+    intro p hp aw inbox
+    simp only [waitLocksOk, Bool.and_eq_true, List.all_eq_true] at h
+    exact C09_disjoint_locks_serve_finishes _ _ (h.2 p hp) aw inbox
+
+end WaitFor
 
 /-! ## Known finding: the SCRAM client of the SASL dependency (negotiation, before Serve)
 
